@@ -2,7 +2,7 @@
 
 use super::c01::case_input;
 use crate::common::{self, Space};
-use crate::driver::{guard, norm_msg, CaseOut, Ctx, Monitor, Tier};
+use crate::driver::{Lane, LaneKind, guard, norm_msg, CaseOut, Ctx, Monitor, Tier};
 use crate::view;
 use arrow2::array::Array;
 use peppi::frame::immutable::Frame;
@@ -37,6 +37,9 @@ impl Monitor for C14 {
 	}
 	fn rule(&self) -> String {
 		"same workload space as C01 (all 784 versions, 81 port/ICs configurations in thorough, random histories). Per case: export frames with Frame::into_struct_array; (1) its data_type tree, rendered as ordered 'path: type' lines, must equal the tree built from the hand-transcribed spec tables (names, nesting, order, primitive types; id, ports.P<n>.leader/follower.pre/post, start >= 2.2, end and item: List<item> >= 3.0); (2) row count = frames, struct validity of each character = presence in the history; (3) every exported leaf equals the in-memory column (accessor table) and the model's expected values; (4) Frame::from_struct_array(array) put back into the game must serialise to the identical .slp. distinct = workload classes + distinct schema trees observed.".into()
+	}
+	fn lanes(&self, _tier: Tier) -> Vec<Lane> {
+		vec![Lane { kind: LaneKind::Miri, name: "roundtrip", shards: (0..25).collect(), nshards: 25 }]
 	}
 	fn n_cases(&self, ctx: &Ctx) -> usize {
 		self.fixtures.len() + ctx.tier.pick(&self.quick, &self.thorough).len()
